@@ -359,3 +359,20 @@ def shrink_ops(case, still_fails, budget=200):
                 changed = True
             i -= 1
     return dict(case, ops=ops)
+
+
+def widen_history(case, limit=80):
+    """widened search around a disagreeing history: the same history followed by one more directed edge between every
+    ordered pair of node names it mentions (one variant per pair, plus one with all of them) - used when model and
+    implementation disagree but the oracle saw no failure yet"""
+    names = []
+    for op in case['ops']:
+        for x in op[1:]:
+            if isinstance(x, str) and x not in names and x not in TYPES and x not in VTYPES and x not in ('default', 'BAD_STR', 'BAD_OBJ'):
+                names.append(x)
+    names = names[:8]
+    extra = [['add_edge', a, b, '->', {}, True] for a in names for b in names if a != b]
+    out = [dict(case, ops=case['ops'] + extra)]
+    for e in extra[:limit]:
+        out.append(dict(case, ops=case['ops'] + [e]))
+    return out
